@@ -203,6 +203,46 @@ static void vh_op(int argc, char **argv)
 		free(s);
 		return;
 	}
+	if (argc == 2 && (strcmp(op, "tof") == 0 || strcmp(op, "tod") == 0 || strcmp(op, "told") == 0 ||
+			strcmp(op, "strtof") == 0 || strcmp(op, "strtod") == 0 || strcmp(op, "strtold") == 0)) {
+		char *s = unhex_cstr(argv[1]);
+		if (!s) { printf("bad-op\n"); return; }
+		int raw = op[0] == 's';
+		const char *k = raw ? op + 5 : op + 2;          /* "f", "d", "ld" */
+		int rc = 1; long consumed = 0; int er = 0;
+		float f = 1.5f; double d = 1.5; long double ld = 1.5L;
+		char *end = s;
+		errno = 0;
+		if (k[0] == 'f') { if (raw) { f = strtof(s, &end); } else rc = muggle_str_tof(s, &f); }
+		else if (k[0] == 'd') { if (raw) { d = strtod(s, &end); } else rc = muggle_str_tod(s, &d); }
+		else { if (raw) { ld = strtold(s, &end); } else rc = muggle_str_told(s, &ld); }
+		er = errno == ERANGE;
+		consumed = (long)(end - s);
+		if (!raw && !rc) { printf("0\n"); free(s); return; }
+		if (raw) printf("%ld ", consumed); else printf("1 ");
+		int isinf_ = 0;
+		if (k[0] == 'f') {
+			uint32_t u; memcpy(&u, &f, 4);
+			if (isnan(f)) printf("nan");
+			else if (isinf(f)) { printf("%u inf", u >> 31); isinf_ = 1; }
+			else printf("%u %u %u", u >> 31, (u >> 23) & 0xff, u & 0x7fffff);
+		} else if (k[0] == 'd') {
+			uint64_t u; memcpy(&u, &d, 8);
+			if (isnan(d)) printf("nan");
+			else if (isinf(d)) { printf("%u inf", (unsigned)(u >> 63)); isinf_ = 1; }
+			else printf("%u %u %" PRIu64, (unsigned)(u >> 63), (unsigned)((u >> 52) & 0x7ff),
+				u & 0xfffffffffffffULL);
+		} else {
+			uint64_t m; uint16_t se; memcpy(&m, &ld, 8); memcpy(&se, (char *)&ld + 8, 2);
+			if (isnan(ld)) printf("nan");
+			else if (isinf(ld)) { printf("%u inf", (unsigned)(se >> 15)); isinf_ = 1; }
+			else printf("%u %u %" PRIu64, (unsigned)(se >> 15), (unsigned)(se & 0x7fff), m);
+		}
+		if (raw) printf(" %d", (er && isinf_) ? 1 : 0);
+		printf("\n");
+		free(s);
+		return;
+	}
 	if (argc == 3 && op[0] == 't' && op[1] == 'o') {
 		char *s = unhex_cstr(argv[1]);
 		if (!s) { printf("bad-op\n"); return; }
